@@ -44,11 +44,95 @@ func classOf(kind string) string {
 		return "huge-set"
 	case "nsec3-iter", "nsec3-deep":
 		return "nsec3-iterations"
+	case "qmin-parent", "qmin-fallback", "cached-cut", "alias-restart":
+		return "restart"
 	}
 	return "other"
 }
 
-var classes = []string{"cycle", "chain", "fanout", "deep-referral", "lame", "huge-set", "nsec3-iterations"}
+var classes = []string{"cycle", "chain", "fanout", "deep-referral", "lame", "huge-set", "nsec3-iterations", "restart"}
+
+// restartFamilies are the restart / re-entry events recognised in the packet
+// log (restart.go).
+var restartFamilies = []string{"parent", "fallback", "cached"}
+
+// placeBudgetsAroundRestart: the firewall-off stack has shown after how many
+// packets the request tree restarted (pre) and how many it needs in all before
+// the client is answered (total). Outbound budgets in [pre, total-1] let the
+// restart happen before the budget is crossed and make the work that remains
+// after it cross it. Applied to the shadow stack and the two outbound-limited
+// enforce stacks; the draw is a function of (seed, index) and of what the off
+// stack observed.
+func placeBudgetsAroundRestart(rng *rand.Rand, off *stackResult, cfgs []StackCfg) bool {
+	o := off.q1
+	if o == nil || o.Restart == nil || o.Restart.Pre <= 0 || o.Restart.PreReply <= o.Restart.Pre {
+		return false
+	}
+	pre, total := o.Restart.Pre, o.Restart.PreReply
+	for i := range cfgs {
+		switch cfgs[i].Label {
+		case "shadow", "enforce-small", "enforce-mid":
+			// mostly past the restart's first packet; sometimes exactly
+			// spent when the restart is decided
+			b := pre + rng.IntN(total-pre)
+			if total-pre > 1 && rng.IntN(4) != 0 {
+				b = pre + 1 + rng.IntN(total-pre-1)
+			}
+			cfgs[i].MaxOutbound = uint32(b)
+		}
+	}
+	return true
+}
+
+// countRestarts publishes what one stack's packet logs show about restarts.
+// Stacks with ipv6access on are left out: once a server is known under two
+// addresses the resolver races them, and a question that arrives twice no
+// longer proves a restart.
+func (run *runner) countRestarts(spec *TopoSpec, res *stackResult) {
+	if spec.Restart == nil || res.cfg.V6 {
+		return
+	}
+	r := run.r
+	for qi, obs := range []*QueryObs{res.q1, res.q2} {
+		if obs == nil || obs.Restart == nil || obs.Watchdog {
+			continue
+		}
+		for fam, n := range obs.Restart.Events {
+			r.Count("restart/"+fam+"/events", n)
+			r.Count("restart/"+fam+"/queries", 1)
+			r.Count("restart/"+fam+"/"+res.cfg.Mode+"_queries", 1)
+			if spec.Restart.Via != "" {
+				r.Count("restart/"+fam+"/queries_via_"+spec.Restart.Via, 1)
+				r.Count("restart/"+fam+"/queries_via_alias", 1)
+			}
+			if spec.TCAll {
+				r.Count("restart/"+fam+"/queries_tc_all", 1)
+			}
+			r.Count(fmt.Sprintf("restart/%s/queries_qmin_%d", fam, spec.QMin), 1)
+			if fam != "cached" {
+				r.Count("restart/"+fam+"/queries_place_"+spec.Restart.Place, 1)
+			}
+			r.DistinctIn("restart_shapes/"+fam, spec.Restart.shape()+fmt.Sprintf("/qmin=%d", spec.QMin))
+			crossed := false
+			for _, x := range obs.Exhausted {
+				if x == "outbound_queries" {
+					crossed = true
+				}
+			}
+			if res.cfg.Mode != "off" && crossed {
+				// the restart was reached within the budget and the budget
+				// was crossed in the same tree: by the work after it
+				r.Count("restart/"+fam+"/"+res.cfg.Mode+"_queries_budget_crossed_after_restart", 1)
+				if res.cfg.Mode == "enforce" && obs.servfail() && (obs.budgetEDE || !spec.Question.EDNS) {
+					r.Count("restart/"+fam+"/enforce_over_budget_servfail_after_restart", 1)
+				}
+			}
+			if res.cfg.Mode == "enforce" && qi == 0 && obs.Packets == int(res.cfg.outboundBudget()) {
+				r.Count("restart/"+fam+"/enforce_budget_fully_spent_after_restart", 1)
+			}
+		}
+	}
+}
 
 // stackConfigs is the list of resolver configurations run, one after the
 // other on fresh stacks, against one topology.
@@ -61,6 +145,12 @@ func stackConfigs(rng *rand.Rand, t *TopoSpec) []StackCfg {
 		base.QueryTimeoutMs = 5000
 	}
 	pairV6 := !t.Slow && t.Index%8 == 3
+	if t.Restart != nil {
+		// the budgets of the restart kinds are placed from what the off stack
+		// observed; with ipv6access on every lookup races two addresses of the
+		// same server and the counts are not comparable
+		pairV6 = false
+	}
 	off := base
 	off.Label, off.Mode, off.V6 = "off", "off", pairV6
 	sh := base
@@ -81,13 +171,15 @@ func stackConfigs(rng *rand.Rand, t *TopoSpec) []StackCfg {
 	em := base
 	em.Label, em.Mode = "enforce-mid", "enforce"
 	em.MaxOutbound = pick(rng, midBudgets...)
-	em.V6 = !t.Slow && t.Index%2 == 0
+	em.V6 = !t.Slow && t.Index%2 == 0 && t.Restart == nil
 	if rng.IntN(3) == 0 {
 		em.MaxInternal = pick(rng, uint32(1), 2, 3, 5, 8)
 	}
 
 	ed := base
 	ed.Label, ed.Mode = "enforce-default", "enforce"
+	// (restart kinds: the detached IPv6 jobs run with the default budget)
+	ed.V6 = !t.Slow && t.Index%2 == 0 && t.Restart != nil
 	if dnssecKind(t.Kind) || (t.Signed && rng.IntN(2) == 0) {
 		// constrain ONE DNSSEC dimension (the others keep their defaults, so
 		// that its crossing is not masked by another one that comes first);
@@ -221,7 +313,8 @@ func (run *runner) topology(index int) {
 	cfgs := stackConfigs(rng, spec)
 	results := map[string]*stackResult{}
 	var order []*stackResult
-	for _, cfg := range cfgs {
+	for i := range cfgs {
+		cfg := cfgs[i]
 		res := run.runStack(w, cfg)
 		if res == nil {
 			return
@@ -229,6 +322,14 @@ func (run *runner) topology(index int) {
 		results[cfg.Label] = res
 		order = append(order, res)
 		run.judgeReplies(w, res, nil)
+		run.countRestarts(spec, res)
+		if cfg.Label == "off" && spec.Restart != nil && !res.watchdog() {
+			if placeBudgetsAroundRestart(rng, res, cfgs) {
+				r.Count("restart/budgets_placed_around_restart", 1)
+			} else {
+				r.Count("restart/no_restart_seen_with_firewall_off", 1)
+			}
+		}
 		if res.watchdog() {
 			return // a wedged pipeline: nothing more can be learnt in this process state
 		}
